@@ -10,13 +10,18 @@ switch value, `SG_MUL_VAL_` entries).  It is tied to the real code by stream `im
 `ImportDBCFile`; 0 mismatches).  Its answer is the STRUCTURE of the imported message (`ITree`).
 
 Fragment: every message the code accepts, in all three cases of `importMessage` (no
-multiplexor; exactly one; several multiplexors with extended multiplexing), EXCEPT messages in
-which one multiplexor is to be nested into another (`nestedRequested`): these are answered
-`unsupported` by the model, never `.ok`, so the theorems say nothing about them.
+multiplexor; exactly one; several multiplexors with extended multiplexing), NESTED multiplexors
+included: a multiplexor that has an extended entry of its own is built first and handed to the
+multiplexor the entry names (which must precede it, /repo 3f90da4).  The tree stays first
+order: a nested multiplexer is a `Child` with `isMux` in its parent and a `MuxNode` of the same
+name in `ITree.nested`, whose `start` is ABSOLUTE.
 
-  import_wf        (a)  validity of the imported structure
-  import_faithful  (b)  faithfulness: a one-to-one matching signals of the file ↔ entries of the tree
-  import_exactly_once, import_nothing_else, import_names_nodup   (b) read by name
+  import_wf        (a)  validity of the imported structure (top level and its multiplexers)
+  import_wf_nested (a)  … of the nested multiplexers, and the absolute-start chain (`LinkOK`)
+  import_faithful  (b)  faithfulness: a one-to-one matching signals of the file ↔ entries of the
+                        tree at every depth (`entriesN`); `import_faithful_flat` is the first
+                        statement (flat view `entries`) for imports without nested multiplexers
+  import_exactly_once, import_nothing_else, import_names_nodup, import_counts   (b) read by name
   import_D75            the known finding D75, stated as what the code does
   examples         (d)
 
@@ -30,6 +35,7 @@ and the oracle signatures `c10-msg:zero-selector`, `c10-msg:dropped:*` must neve
 import Acme.Spec.Import
 import Acme.Proofs.ImportD75
 import Acme.Proofs.ImportExtra
+import Acme.Proofs.ImportNested2
 import Acme.Props.C10
 
 namespace Acme.Props.C10Msg
@@ -55,8 +61,20 @@ theorem import_wf (m : DMsg) (t : ITree) (h : importMsg m = .ok t) :
     WF (8 * (m.size : Int)) (topSlots t.top) ∧
     (∀ n, Item.mux n ∈ t.top → MuxWF n ∧ (Item.mux n).size = n.groupSize + n.selW) ∧
     (∀ x ∈ t.top, 0 < x.size) ∧ (regNames t.top).Nodup := by
-  obtain ⟨_, h2, h3, _, hinv, _, _⟩ := importMsg_ok m t h
+  obtain ⟨_, h2, h3, _, hinv, _⟩ := importMsg_ok m t h
   exact ⟨h2, h3, hinv.wf, fun n hn => ⟨hinv.mux n hn, rfl⟩, hinv.pos, hinv.names⟩
+
+/-- (a), nested multiplexers: every multiplexer that is a child of another multiplexer
+    (`t.nested`, any depth) is a well-formed multiplexer node, and every child marked `isMux` —
+    of a top-level or of a nested multiplexer — has its node: same name, the child's size is the
+    node's total size (selector + one group), and the node's ABSOLUTE start bit is the parent's
+    absolute start + the parent's selector width + the child's relative start (C07_abs_start,
+    applied along the whole ancestor chain). -/
+theorem import_wf_nested (m : DMsg) (t : ITree) (h : importMsg m = .ok t) :
+    (∀ n ∈ t.nested, MuxWF n) ∧ (∀ n ∈ t.nested, LinkOK t.nested n) ∧
+    (∀ n, Item.mux n ∈ t.top → LinkOK t.nested n) := by
+  obtain ⟨_, _, _, _, _, _, _, h1, h2, h3, _⟩ := importMsg_ok m t h
+  exact ⟨h1, h2, h3⟩
 
 /-- (b) An accepted import is faithful: there is a one-to-one matching `τ` between the signals
     of the file and the entries of the tree (each signal once, each entry once, nothing else)
@@ -67,11 +85,34 @@ theorem import_wf (m : DMsg) (t : ITree) (h : importMsg m = .ok t) :
       * a child of a multiplexer with `gc` groups is in the groups the file asks for
         (`GroupsAsFile`): switch value `k` without extended entry ⇒ exactly `[k]`; with an
         extended entry ⇒ exactly the groups of `Acme.Conv.expand` (fixed when these are all
-        groups); not multiplexed ⇒ fixed (D75, see `import_D75`). -/
+        groups); not multiplexed ⇒ fixed (D75, see `import_D75`);
+      * a multiplexor of the file that is nested is a `subMux` entry of its parent: its size is
+        the selector width of the nested node, its absolute start (parent's absolute start +
+        parent's selector width + relative start, down the whole ancestor chain, `LinkOK`) is
+        the `importPos` of the file's start bit, and it is in the groups of its extended entry.
+    Holds for EVERY accepted import, nested multiplexors included. -/
 theorem import_faithful (m : DMsg) (t : ITree) (h : importMsg m = .ok t) :
+    ∃ τ : List (DSig × Entry), (τ.map (·.1)).Perm m.sigs ∧ (τ.map (·.2)).Perm (entriesN t) ∧
+      ∀ p ∈ τ, EntryRel m.exts p.1 p.2 :=
+  importMsg_matchN m t h
+
+/-- the flat view used by (b): without nested multiplexers `entriesN` is the flat view `entries`
+    of the first version of this file (every child has the place `.child`) -/
+theorem entriesN_eq_entries (m : DMsg) (t : ITree) (h : importMsg m = .ok t) (hflat : t.nested = []) :
+    entriesN t = entries t := by
+  apply entriesN_flat t hflat
+  intro n hnt c hc
+  cases hm : c.isMux
+  · rfl
+  · obtain ⟨n', hn', _⟩ := (importMsg_ok m t h).2.2.2.2.2.2.2.2.2.1 n hnt c hc hm
+    rw [hflat] at hn'
+    cases hn'
+
+/-- (b) as first stated, for the accepted imports WITHOUT nested multiplexers -/
+theorem import_faithful_flat (m : DMsg) (t : ITree) (h : importMsg m = .ok t) (hflat : t.nested = []) :
     ∃ τ : List (DSig × Entry), (τ.map (·.1)).Perm m.sigs ∧ (τ.map (·.2)).Perm (entries t) ∧
       ∀ p ∈ τ, EntryRel m.exts p.1 p.2 :=
-  (importMsg_ok m t h).2.2.2.2.2.2
+  (importMsg_ok m t h).2.2.2.2.2.2.2.2.2.2 hflat
 
 /-- an accepted file has pairwise different signal names in the message -/
 theorem import_file_names_nodup (m : DMsg) (t : ITree) (h : importMsg m = .ok t) :
@@ -85,21 +126,29 @@ theorem import_selectorsOK (m : DMsg) (t : ITree) (h : importMsg m = .ok t) : Se
 theorem import_muxNamesOK (m : DMsg) (t : ITree) (h : importMsg m = .ok t) : MuxNamesOK m :=
   importMsg_muxNames m t h
 
-/-- the names of the entries of an imported tree are pairwise different (no hypothesis) -/
+/-- the names of the entries of an imported tree are pairwise different, at every depth -/
 theorem import_names_nodup (m : DMsg) (t : ITree) (h : importMsg m = .ok t) :
-    ((entries t).map (·.name)).Nodup := by
-  have := (import_wf m t h).2.2.2.2.2
-  rw [← entriesOf_names] at this
-  exact this
+    ((entriesN t).map (·.name)).Nodup := by
+  obtain ⟨τ, h1, h2, h3⟩ := import_faithful m t h
+  have hnd := import_file_names_nodup m t h
+  have e1 : ((τ.map (·.1)).map (·.name)).Nodup := ((h1.map _).nodup_iff).2 hnd
+  have e2 : (τ.map (·.2)).map (·.name) = (τ.map (·.1)).map (·.name) := by
+    rw [List.map_map, List.map_map]
+    apply List.map_congr_left
+    intro p hp
+    exact (h3 p hp).1
+  rw [← e2] at e1
+  exact ((h2.map _).nodup_iff).1 e1
 
 /-- (b) by name: every signal of the file occurs exactly once in the tree — there is an entry
     that is its faithful image, and every entry with its name is that entry -/
-theorem import_exactly_once (m : DMsg) (t : ITree) (h : importMsg m = .ok t) (s : DSig) (hs : s ∈ m.sigs) :
-    ∃ e ∈ entries t, EntryRel m.exts s e ∧ ∀ e' ∈ entries t, e'.name = s.name → e' = e := by
+theorem import_exactly_once (m : DMsg) (t : ITree) (h : importMsg m = .ok t)
+    (s : DSig) (hs : s ∈ m.sigs) :
+    ∃ e ∈ entriesN t, EntryRel m.exts s e ∧ ∀ e' ∈ entriesN t, e'.name = s.name → e' = e := by
   obtain ⟨τ, h1, h2, h3⟩ := import_faithful m t h
   have hs' : s ∈ τ.map (·.1) := h1.mem_iff.2 hs
   obtain ⟨p, hp, rfl⟩ := List.mem_map.1 hs'
-  have he : p.2 ∈ entries t := h2.mem_iff.1 (List.mem_map.2 ⟨p, hp, rfl⟩)
+  have he : p.2 ∈ entriesN t := h2.mem_iff.1 (List.mem_map.2 ⟨p, hp, rfl⟩)
   refine ⟨p.2, he, h3 p hp, ?_⟩
   intro e' he' hn
   have hnd := import_names_nodup m t h
@@ -108,28 +157,20 @@ theorem import_exactly_once (m : DMsg) (t : ITree) (h : importMsg m = .ok t) (s 
   exact List.inj_on_of_nodup_map hnd he' he this
 
 /-- (b) nothing else is in the tree: every entry is the faithful image of a signal of the file -/
-theorem import_nothing_else (m : DMsg) (t : ITree) (h : importMsg m = .ok t) (e : Entry) (he : e ∈ entries t) :
+theorem import_nothing_else (m : DMsg) (t : ITree) (h : importMsg m = .ok t)
+    (e : Entry) (he : e ∈ entriesN t) :
     ∃ s ∈ m.sigs, EntryRel m.exts s e := by
   obtain ⟨τ, h1, h2, h3⟩ := import_faithful m t h
   have he' : e ∈ τ.map (·.2) := h2.mem_iff.2 he
   obtain ⟨p, hp, rfl⟩ := List.mem_map.1 he'
   exact ⟨p.1, h1.mem_iff.1 (List.mem_map.2 ⟨p, hp, rfl⟩), h3 p hp⟩
 
-/-- the file has as many signals as the tree has entries, and its names are pairwise different -/
+/-- the file has as many signals as the tree has entries -/
 theorem import_counts (m : DMsg) (t : ITree) (h : importMsg m = .ok t) :
-    m.sigs.length = (entries t).length ∧ (m.sigs.map (·.name)).Nodup := by
-  obtain ⟨τ, h1, h2, h3⟩ := import_faithful m t h
-  constructor
-  · rw [← h1.length_eq, ← h2.length_eq, List.length_map, List.length_map]
-  · have hnd := import_names_nodup m t h
-    have e1 : ((τ.map (·.2)).map (·.name)).Nodup := ((h2.map _).nodup_iff).2 hnd
-    have e2 : (τ.map (·.2)).map (·.name) = (τ.map (·.1)).map (·.name) := by
-      rw [List.map_map, List.map_map]
-      apply List.map_congr_left
-      intro p hp
-      exact (h3 p hp).1
-    rw [e2] at e1
-    exact ((h1.map _).nodup_iff).1 e1
+    m.sigs.length = (entriesN t).length ∧ (m.sigs.map (·.name)).Nodup := by
+  obtain ⟨τ, h1, h2, _⟩ := import_faithful m t h
+  exact ⟨by rw [← h1.length_eq, ← h2.length_eq, List.length_map, List.length_map],
+    import_file_names_nodup m t h⟩
 
 /-- what `GroupsAsFile` says in the two cases without an extended entry -/
 theorem groups_switch (exts : List DExt) (gc : Int) (s : DSig) (gids : List Int)
@@ -201,7 +242,7 @@ theorem import_D75 (m : DMsg) (t : ITree) (h : importMsg m = .ok t) (mx s u : DS
   have hsize := (import_wf m t h).2.1
   obtain ⟨n, c, hn, hname, hc, hrel⟩ := importOne_D75 _ m.exts mx _ t.top hone' (by omega) s u
     (hsort.mem_iff.2 hs) (by simpa using hsn) hsm (hsort.mem_iff.2 hu) (by simpa using hun) hum h1 h2
-  obtain ⟨r1, r2, r3, r4⟩ := hrel
+  obtain ⟨r1, r2, r3, r4, _⟩ := hrel
   refine ⟨n, c, hn, hname, hc, r1, r3, r2, ?_⟩
   intro hext
   exact (groups_switch m.exts _ s c.gids r4 hext).2 hsm
@@ -222,8 +263,8 @@ def exMsg : DMsg :=
     exts := [⟨"mx", "b", [(0, 0), (2, 3)]⟩, ⟨"mx", "f", [(0, 3)]⟩] }
 
 def exTree : ITree :=
-  ⟨7, 8, true, [.mux ⟨"mx", 0, 2, 4, 12, [⟨"b", 4, 8, [0, 2, 3]⟩, ⟨"a", 4, 8, [1]⟩, ⟨"f", 0, 4, []⟩]⟩,
-                .sig ⟨"p", 16, 8⟩]⟩
+  ⟨7, 8, true, [.mux ⟨"mx", 0, 2, 4, 12, [⟨"b", 4, 8, [0, 2, 3], false⟩, ⟨"a", 4, 8, [1], false⟩, ⟨"f", 0, 4, [], false⟩]⟩,
+                .sig ⟨"p", 16, 8⟩], []⟩
 
 theorem ex_import : importMsg exMsg = .ok exTree := by decide
 
@@ -236,7 +277,7 @@ theorem ex_positions : exMsg.sigs.map filePos = [16, 6, 0, 6, 2] := by decide
 
 /-- the groups of the example multiplexer: `f` everywhere, `b` in 0, 2, 3, `a` in 1 -/
 theorem ex_groups :
-    (List.range 4).map (fun (k : Nat) => (groupOf [⟨"b", 4, 8, [0, 2, 3]⟩, ⟨"a", 4, 8, [1]⟩, ⟨"f", 0, 4, []⟩] (k : Int)).map (·.name)) =
+    (List.range 4).map (fun (k : Nat) => (groupOf [⟨"b", 4, 8, [0, 2, 3], false⟩, ⟨"a", 4, 8, [1], false⟩, ⟨"f", 0, 4, [], false⟩] (k : Int)).map (·.name)) =
       [["f", "b"], ["f", "a"], ["f", "b"], ["f", "b"]] := by decide
 
 /-- (a) and (b) instantiated -/
@@ -248,7 +289,7 @@ theorem ex_wf :
   import_wf exMsg exTree ex_import
 
 theorem ex_faithful :
-    ∃ τ : List (DSig × Entry), (τ.map (·.1)).Perm exMsg.sigs ∧ (τ.map (·.2)).Perm (entries exTree) ∧
+    ∃ τ : List (DSig × Entry), (τ.map (·.1)).Perm exMsg.sigs ∧ (τ.map (·.2)).Perm (entriesN exTree) ∧
       ∀ p ∈ τ, EntryRel exMsg.exts p.1 p.2 :=
   import_faithful exMsg exTree ex_import
 
@@ -262,7 +303,7 @@ def exD75 : DMsg :=
       { name := "c", start := 8, size := 4, bigEndian := false, isMultiplexed := true, muxSwitch := 1 } ] }
 
 theorem ex_D75 : importMsg exD75 =
-    .ok ⟨1, 2, false, [.mux ⟨"mx", 0, 1, 2, 11, [⟨"c", 7, 4, [1]⟩, ⟨"d", 3, 2, []⟩]⟩]⟩ := by decide
+    .ok ⟨1, 2, false, [.mux ⟨"mx", 0, 1, 2, 11, [⟨"c", 7, 4, [1], false⟩, ⟨"d", 3, 2, [], false⟩]⟩], []⟩ := by decide
 
 /-- the two behaviours that (b) used to exclude by hypotheses are refusals now -/
 def exZeroSel : DMsg :=
@@ -282,5 +323,56 @@ def exSameName : DMsg :=
 
 /-- a second signal with the name of the multiplexor is refused (before: dropped silently) -/
 theorem ex_same_name : importMsg exSameName = .error .nameDuplicated := by decide
+
+/-! ### nested multiplexors: message `msg_1` (id 32) of the fixture /repo/testdata/expected.dbc -/
+
+/-- `mux_sig_1 M`, `one_group_sig_1 m0`, `nested_mux_sig_1 m0M` (1 bit at 2, extended entry
+    `1-1`), its children `one_group_sig_2` (`0-0`) and `multi_group_sig_1` (`0-1`) -/
+def fxMsg : DMsg :=
+  { id := 32, size := 8,
+    sigs := [
+      { name := "mux_sig_1", start := 0, size := 2, bigEndian := false, isMultiplexor := true },
+      { name := "one_group_sig_1", start := 2, size := 4, bigEndian := false, isMultiplexed := true, muxSwitch := 0 },
+      { name := "nested_mux_sig_1", start := 2, size := 1, bigEndian := false, isMultiplexor := true,
+        isMultiplexed := true, muxSwitch := 0 },
+      { name := "one_group_sig_2", start := 3, size := 4, bigEndian := false, isMultiplexed := true, muxSwitch := 0 },
+      { name := "multi_group_sig_1", start := 7, size := 4, bigEndian := false, isMultiplexed := true, muxSwitch := 1 } ],
+    exts := [⟨"nested_mux_sig_1", "one_group_sig_2", [(0, 0)]⟩, ⟨"nested_mux_sig_1", "multi_group_sig_1", [(0, 1)]⟩,
+             ⟨"mux_sig_1", "one_group_sig_1", [(0, 0)]⟩, ⟨"mux_sig_1", "nested_mux_sig_1", [(1, 1)]⟩] }
+
+/-- the nested multiplexer (1-bit selector, two groups of 8 bits) is a child of 9 bits in group 1
+    of `mux_sig_1`; its node has the absolute start 2 = 0 + 2 + 0 -/
+def fxTree : ITree :=
+  { id := 32, sizeByte := 8, bigEndian := false,
+    top := [.mux ⟨"mux_sig_1", 0, 2, 4, 9,
+      [⟨"one_group_sig_1", 0, 4, [0], false⟩, ⟨"nested_mux_sig_1", 0, 9, [1], true⟩]⟩],
+    nested := [⟨"nested_mux_sig_1", 2, 1, 2, 8,
+      [⟨"one_group_sig_2", 0, 4, [0], false⟩, ⟨"multi_group_sig_1", 4, 4, [], false⟩]⟩] }
+
+theorem fx_import : importMsg fxMsg = .ok fxTree := by decide
+
+/-- the flat view: absolute start bits 0, 2, 2, 3, 7 — the start bits of the file, through two
+    levels (3 = 2 + 1 + 0, 7 = 2 + 1 + 4) -/
+theorem fx_entries : entriesN fxTree =
+    [⟨"mux_sig_1", 2, 0, .muxor⟩, ⟨"one_group_sig_1", 4, 2, .child "mux_sig_1" 4 [0]⟩,
+     ⟨"nested_mux_sig_1", 1, 2, .subMux "mux_sig_1" 4 [1]⟩,
+     ⟨"one_group_sig_2", 4, 3, .child "nested_mux_sig_1" 2 [0]⟩,
+     ⟨"multi_group_sig_1", 4, 7, .child "nested_mux_sig_1" 2 []⟩] := by decide
+
+theorem fx_wf_nested :
+    (∀ n ∈ fxTree.nested, MuxWF n) ∧ (∀ n ∈ fxTree.nested, LinkOK fxTree.nested n) ∧
+    (∀ n, Item.mux n ∈ fxTree.top → LinkOK fxTree.nested n) :=
+  import_wf_nested fxMsg fxTree fx_import
+
+theorem fx_faithful :
+    ∃ τ : List (DSig × Entry), (τ.map (·.1)).Perm fxMsg.sigs ∧ (τ.map (·.2)).Perm (entriesN fxTree) ∧
+      ∀ p ∈ τ, EntryRel fxMsg.exts p.1 p.2 :=
+  import_faithful fxMsg fxTree fx_import
+
+/-- the check repaired in /repo 3f90da4: a nested multiplexor whose parent does not precede it
+    (here: it names itself) is refused -/
+theorem ex_precede :
+    importMsg { fxMsg with exts := fxMsg.exts ++ [⟨"nested_mux_sig_1", "nested_mux_sig_1", [(0, 0)]⟩] } =
+      .error .precede := by decide
 
 end Acme.Props.C10Msg
